@@ -21,6 +21,10 @@ pub struct MBlock {
     /// check-ai: Some(true) = the fake endpoint objects, Some(false) = it answers OK
     #[serde(default)]
     pub ai: Option<bool>,
+    /// affects: number of referenced blocks that do not exist (0 = no attribute); in diff mode every block is
+    /// new, hence modified, and each stale reference is one violation at the same start-tag range
+    #[serde(default)]
+    pub affects: u8,
     pub lines: Vec<String>,
 }
 
@@ -52,6 +56,11 @@ pub fn severity_number(s: Option<&str>) -> u64 {
 }
 
 impl MBlock {
+    /// stale references are only attached to blocks that have content lines (whether a content-less block
+    /// counts as modified is not stated)
+    fn n_affects(&self) -> u8 {
+        if self.lines.is_empty() { 0 } else { self.affects }
+    }
     pub fn to_rule_block(&self, name: &str) -> RuleBlock {
         let mut attrs = vec![("name".to_string(), Some(name.to_string()))];
         if let Some(s) = &self.severity {
@@ -75,11 +84,15 @@ impl MBlock {
         if let Some(bad) = self.ai {
             attrs.push(("check-ai".into(), Some(format!("condition for {name} {}", if bad { "BAD" } else { "GOOD" }))));
         }
+        if self.n_affects() > 0 {
+            let refs: Vec<String> = (0..self.n_affects()).map(|k| format!(":stale{k}-{name}")).collect();
+            attrs.push(("affects".into(), Some(refs.join(", "))));
+        }
         RuleBlock { attrs, lines: self.lines.clone(), indent: 0 }
     }
 
     /// Expected diagnostics of this block from the reference models.
-    pub fn expected(&self, pos: &crate::rules::BlockPos) -> Vec<ExpDiag> {
+    pub fn expected(&self, pos: &crate::rules::BlockPos, name: &str, diff_mode: bool) -> Vec<ExpDiag> {
         let sev = severity_number(self.severity.as_deref());
         let lines: Vec<&str> = self.lines.iter().map(String::as_str).collect();
         let mut out = vec![];
@@ -112,6 +125,12 @@ impl MBlock {
         if self.ai == Some(true) {
             out.push(ExpDiag::tag("check-ai", pos).sev(sev).with_data("/ai_message", json!("objection from the fake endpoint")));
         }
+        // drift is only judged in diff mode; content-less blocks cannot be modified (C01's unspecified zone): see lay_out
+        if diff_mode {
+            for k in 0..self.n_affects() {
+                out.push(ExpDiag::tag("affects", pos).sev(sev).with_data("/affected_block_name", json!(format!("stale{k}-{name}"))));
+            }
+        }
         out
     }
 }
@@ -131,7 +150,7 @@ pub fn lay_out(case: &MCase) -> Vec<Laid> {
             let names: Vec<String> = (0..f.blocks.len()).map(|bi| format!("f{fi}b{bi}")).collect();
             let rb: Vec<RuleBlock> = f.blocks.iter().zip(&names).map(|(b, n)| b.to_rule_block(n)).collect();
             let r = render_batch(f.host, &rb);
-            let expected = f.blocks.iter().zip(&r.pos).flat_map(|(b, p)| b.expected(p)).collect();
+            let expected = f.blocks.iter().zip(&r.pos).zip(&names).flat_map(|((b, p), n)| b.expected(p, n, case.mode % 3 == 2)).collect();
             let ext = f.host.file().rsplit('.').next().unwrap();
             let path = if f.dir.is_empty() { format!("f{fi}.{ext}") } else { format!("{}/f{fi}.{ext}", f.dir) };
             Laid { path, text: r.text, names, expected }
@@ -281,8 +300,9 @@ pub fn block_strategy() -> BoxedStrategy<MBlock> {
         proptest::option::weighted(0.4, any::<bool>()),
         proptest::option::weighted(0.3, any::<bool>()),
         proptest::collection::vec(0..LINES.len(), 0..7),
+        prop_oneof![4 => Just(0u8), 1 => 1u8..4],
     )
-        .prop_map(|(sev, ks, ku, lp, lc, lua, ai, ls)| MBlock {
+        .prop_map(|(sev, ks, ku, lp, lc, lua, ai, ls, affects)| MBlock {
             severity: SEVS[sev].map(String::from),
             keep_sorted: ks.map(String::from),
             keep_unique: ku,
@@ -290,6 +310,7 @@ pub fn block_strategy() -> BoxedStrategy<MBlock> {
             line_count: lc.map(|(op, n)| format!("{}{n}", models::Op::ALL[op].text())),
             lua,
             ai,
+            affects,
             lines: ls.into_iter().map(|i| LINES[i].to_string()).collect(),
         })
         .boxed()
@@ -306,7 +327,7 @@ pub fn case_strategy() -> BoxedStrategy<MCase> {
 }
 
 pub fn run(run: &mut Run) {
-    run.rule = "random: 1..5 files (root or sub-directories) x 1..6 blocks x independent choice of keep-sorted / keep-unique / line-pattern / line-count / check-lua(echo|nil) / check-ai(fake endpoint objecting or answering OK) on the same lines x severity in {absent, error, warning, info, hint} in random letter case; modes: scan with paths, interactive scan, new-file diff on stdin; then `list`. Expected diagnostics from the C06–C09 reference models. Non-trivial case = at least two validators reporting on one file and an error among >= 2 non-errors (or the converse).".into();
+    run.rule = "random: 1..5 files (root or sub-directories) x 1..6 blocks x independent choice of keep-sorted / keep-unique / line-pattern / line-count / check-lua(echo|nil) / check-ai(fake endpoint objecting or answering OK) / affects with 1..3 stale references (live in diff mode: several diagnostics on the same range) on the same lines x severity in {absent, error, warning, info, hint} in random letter case; modes: scan with paths, interactive scan, new-file diff on stdin; then `list`. Expected diagnostics from the C06–C09 reference models. Non-trivial case = at least two validators reporting on one file and an error among >= 2 non-errors (or the converse).".into();
     run.assumptions = vec!["block content lines are shell/ruby words; check-lua scripts are `echo` / `nil` scripts in the repository root".into()];
     run.random("mix", run.tier.pick(1200, 30000), case_strategy, check);
 }
